@@ -161,8 +161,8 @@ theorem quadres_bes (p : ℕ) [Fact p.Prime] (h4 : p % 4 = 1) :
 /-! ## non-vacuity: the tables at the smallest sizes (the driver prints exactly these constants) -/
 
 example : gt1Count 4 = 9 ∧ gt2Count 3 4 = 7 := by decide
-example : (List.range 4).map (gt1A 4 1) = [⟨2, false, 0⟩, ⟨2, false, 0⟩, RootEnt.zero, RootEnt.zero] := by decide
-example : (List.range 4).map (gt1B 4 0) = [RootEnt.zero, ⟨2, false, 0⟩, ⟨2, false, 0⟩, RootEnt.zero] := by decide
+example : (List.range 4).map (gt1A 4 1) = [⟨2, false, 0⟩, ⟨2, false, 1⟩, RootEnt.zero, RootEnt.zero] := by decide
+example : (List.range 4).map (gt1B 4 0) = [RootEnt.zero, ⟨2, false, 0⟩, ⟨2, false, 1⟩, RootEnt.zero] := by decide
 example : (List.range 3).map (gt2A 3 4 2) = [⟨4, true, 0⟩, RootEnt.zero, ⟨4, false, 0⟩] := by decide
 example : (List.range 4).map (gt2B 3 4 3) = [RootEnt.zero, ⟨2, false, 0⟩, RootEnt.zero, ⟨2, false, 1⟩] := by decide
 example : quadResidues 5 = [1, 4] ∧ firstNonResidue 5 = 2 ∧ quadResidues 13 = [1, 3, 4, 9, 10, 12] := by decide
@@ -170,7 +170,7 @@ example : (List.range 3).map (qrA 5 2) = [⟨6, false, 0⟩, ⟨7, false, 2⟩, 
 example : (List.range 3).map (qrB 5 2) = [⟨6, false, 0⟩, ⟨7, false, 4⟩, ⟨7, false, 1⟩] := by decide
 /-- the hypotheses of `quadres_orthonormal` are satisfiable: `p = 5` (`dim = 3`) -/
 example : Orthonormal 5 (3 * 3) (prodVec 3 (qrVecA 5) (qrVecB 5)) := by
-  haveI : Fact (Nat.Prime 5) := ⟨by norm_num⟩
+  have : Fact (Nat.Prime 5) := ⟨by norm_num⟩
   have h := quadres_orthonormal 5 (by norm_num)
   have e : (quadResidues 5).length + 1 = 3 := by decide
   rwa [e] at h
